@@ -95,8 +95,8 @@ func (s *Server) AlphabetIndex() int {
 }
 
 func (s *Server) voteForFSChainValidator(ctx context.Context, validators keys.PublicKeys, trigger *util.Uint256) error {
-	index := s.InnerRingIndex()
-	if index >= len(s.contracts.alphabet) {
+	index := s.AlphabetIndex()
+	if index < 0 || index >= len(s.contracts.alphabet) {
 		s.log.Info("ignore validator vote: node not in alphabet range")
 
 		return nil
